@@ -1,4 +1,5 @@
 import Qryn.Read.Confine
+import Qryn.Proofs.SqlSemLemmas
 import Qryn.LogQL.Planner
 /-! Helper lemmas for C13. -/
 namespace Qryn.Confine
@@ -9,38 +10,335 @@ theorem evalAll_mem (o : Oracles) (env : Env) (r : Row) (cs : List Expr) (h : ev
   induction cs with
   | nil => cases he
   | cons c cs ih =>
-    simp only [evalAll, Bool.and_eq_true] at h
+    simp only [evalAll_cons, Bool.and_eq_true] at h
     rcases List.mem_cons.mp he with rfl | hm
     · exact h.1
     · exact ih h.2 hm
 
 /-- a row passing a condition passes each of its top-level conjuncts -/
-theorem conjunct_holds (o : Oracles) (env : Env) (r : Row) (c : Option Expr) (h : optB o env r c = true)
-    (e : Expr) (he : e ∈ conjuncts c) : evalB o env r e = true := by
+theorem conjunct1_holds (o : Oracles) (env : Env) (r : Row) (c : Option Expr) (h : optB o env r c = true)
+    (e : Expr) (he : e ∈ conjuncts1 c) : evalB o env r e = true := by
   cases c with
-  | none => simp [conjuncts] at he
+  | none => simp [conjuncts1] at he
   | some x =>
     simp only [optB] at h
-    unfold conjuncts at he
-    split at he
-    · cases he
-    · next cs heq =>
-      injection heq with heq; subst heq
-      have : evalAll o env r cs = true := by
-        simpa [evalB, evalE, boolVal, Val.truthy] using h
-      exact evalAll_mem o env r cs this e he
-    · next e' hne =>
-      injection ‹some x = some e'› with h'; subst h'
-      simp only [List.mem_singleton] at he; subst he; exact h
+    by_cases hx : ∃ cs, x = .logical "and" cs
+    · obtain ⟨cs, rfl⟩ := hx
+      simp only [conjuncts1] at he
+      have h' : evalAll o env r cs = true := by
+        have := evalB_and (o := o) (env := env) (r := r) cs
+        simpa [and_] using this ▸ h
+      exact evalAll_mem o env r cs h' e he
+    · have : conjuncts1 (some x) = [x] := by
+        unfold conjuncts1
+        split
+        · rename_i heq; cases heq
+        · rename_i cs heq; injection heq with heq; exact absurd ⟨cs, heq⟩ hx
+        · rename_i e' _ heq; injection heq with heq; subst heq; rfl
+      rw [this, List.mem_singleton] at he; subst he; exact h
 
-theorem cmpLe_int (a : Int) (v : Val) (h : Val.cmpLe (.int a) v = true) : ∃ t, v = .int t ∧ a ≤ t := by
+theorem splice_holds (o : Oracles) (env : Env) (r : Row) (p : Expr) (hp : evalB o env r p = true)
+    (e : Expr) (he : e ∈ splice p) : evalB o env r e = true := by
+  by_cases hx : ∃ cs, p = .logical "and" cs
+  · obtain ⟨cs, rfl⟩ := hx
+    simp only [splice] at he
+    have h' : evalAll o env r cs = true := by
+      have := evalB_and (o := o) (env := env) (r := r) cs
+      simpa [and_] using this ▸ hp
+    exact evalAll_mem o env r cs h' e he
+  · have : splice p = [p] := by
+      unfold splice
+      split
+      · rename_i cs; exact absurd ⟨cs, rfl⟩ hx
+      · rfl
+    rw [this, List.mem_singleton] at he; subst he; exact hp
+
+/-- … also looking through one nested `and` -/
+theorem conjunct_holds (o : Oracles) (env : Env) (r : Row) (c : Option Expr) (h : optB o env r c = true)
+    (e : Expr) (he : e ∈ conjuncts c) : evalB o env r e = true := by
+  simp only [conjuncts, List.mem_flatMap] at he
+  obtain ⟨p, hp, hep⟩ := he
+  exact splice_holds o env r p (conjunct1_holds o env r c h p hp) e hep
+
+end Qryn.Confine
+
+namespace Qryn.Confine
+open Qryn Qryn.Sql
+
+theorem cmpLe_int_left (a : Int) (v : Val) (h : Val.cmpLe (.int a) v = true) : ∃ t, v = .int t ∧ a ≤ t := by
   cases v <;> simp_all [Val.cmpLe]
-theorem cmpLe_int' (a : Int) (v : Val) (h : Val.cmpLe v (.int a) = true) : ∃ t, v = .int t ∧ t ≤ a := by
+theorem cmpLe_int_right (a : Int) (v : Val) (h : Val.cmpLe v (.int a) = true) : ∃ t, v = .int t ∧ t ≤ a := by
   cases v <;> simp_all [Val.cmpLe]
-theorem not_cmpLe_int (a : Int) (v : Val) (hv : ∃ t, v = .int t) (h : Val.cmpLe v (.int a) = false) :
-    ∃ t, v = .int t ∧ a < t := by
-  obtain ⟨t, rfl⟩ := hv
-  refine ⟨t, rfl, ?_⟩
-  simp [Val.cmpLe] at h; omega
+
+/-- a recognised lower timestamp bound that holds of a row pins an integer timestamp column of that row
+    at or above `from − slack` (a row whose column is not an integer does not pass) -/
+theorem lower_sound (o : Oracles) (env : Env) (r : Row) (w : Window) (e : Expr)
+    (h : isLowerTs w e = true) (he : evalB o env r e = true) :
+    ∃ c ts, isTsCol c = true ∧ r.get c = .int ts ∧ w.fromNs - w.slackNs ≤ ts := by
+  unfold isLowerTs at h
+  split at h
+  · next c f =>
+    simp only [Bool.and_eq_true, decide_eq_true_eq] at h
+    have : cmpOp o ">=" (r.get c) (.int f) = true := by
+      have := evalE_cmp (o := o) (env := env) (r := r) ">=" (.raw c) (.int f) (by decide) (by decide)
+      simpa [evalB, this] using he
+    have hle : Val.cmpLe (.int f) (r.get c) = true := by
+      cases hv : r.get c <;> simp_all [cmpOp]
+    obtain ⟨t, ht, hft⟩ := cmpLe_int_left f _ hle
+    exact ⟨c, t, h.1, ht, by omega⟩
+  · next c f =>
+    simp only [Bool.and_eq_true, decide_eq_true_eq] at h
+    have : cmpOp o ">" (r.get c) (.int f) = true := by
+      have := evalE_cmp (o := o) (env := env) (r := r) ">" (.raw c) (.int f) (by decide) (by decide)
+      simpa [evalB, this] using he
+    cases hv : r.get c with
+    | int t =>
+      refine ⟨c, t, h.1, hv, ?_⟩
+      simp [cmpOp, hv, Val.cmpLt] at this
+      omega
+    | _ => simp_all [cmpOp, Val.cmpLt]
+  · cases h
+
+theorem upper_sound (o : Oracles) (env : Env) (r : Row) (w : Window) (e : Expr)
+    (h : isUpperTs w e = true) (he : evalB o env r e = true) :
+    ∃ c ts, isTsCol c = true ∧ r.get c = .int ts ∧ ts ≤ w.toNs + w.slackNs := by
+  unfold isUpperTs at h
+  split at h
+  · next c f =>
+    simp only [Bool.and_eq_true, decide_eq_true_eq] at h
+    have : cmpOp o "<" (r.get c) (.int f) = true := by
+      have := evalE_cmp (o := o) (env := env) (r := r) "<" (.raw c) (.int f) (by decide) (by decide)
+      simpa [evalB, this] using he
+    cases hv : r.get c with
+    | int t =>
+      refine ⟨c, t, h.1, hv, ?_⟩
+      simp [cmpOp, hv, Val.cmpLt] at this
+      omega
+    | _ => simp_all [cmpOp, Val.cmpLt]
+  · next c f =>
+    simp only [Bool.and_eq_true, decide_eq_true_eq] at h
+    have : cmpOp o "<=" (r.get c) (.int f) = true := by
+      have := evalE_cmp (o := o) (env := env) (r := r) "<=" (.raw c) (.int f) (by decide) (by decide)
+      simpa [evalB, this] using he
+    have hle : Val.cmpLe (r.get c) (.int f) = true := by
+      cases hv : r.get c <;> simp_all [cmpOp]
+    obtain ⟨t, ht, hft⟩ := cmpLe_int_right f _ hle
+    exact ⟨c, t, h.1, ht, by omega⟩
+  · cases h
+
+theorem type_sound (o : Oracles) (env : Env) (r : Row) (w : Window) (e : Expr)
+    (h : isTypeFilter w e = true) (he : evalB o env r e = true) :
+    r.get "type" = .int w.tp ∨ r.get "type" = .int 0 := by
+  unfold isTypeFilter at h
+  split at h
+  · next a =>
+    have ha : a = w.tp := by simpa using h
+    have := evalB_isIn_ints (o := o) (env := env) (r := r) (.raw "type") a 0
+    rw [this, ha] at he
+    simp only [evalE_raw, Bool.or_eq_true, beq_iff_eq] at he
+    exact he
+  · cases h
+
+end Qryn.Confine
+
+namespace Qryn.Confine
+open Qryn Qryn.Sql Qryn.LogQL
+
+theorem splice_logical (fn : String) (cs : List Expr) (h : fn ≠ "and") : splice (.logical fn cs) = [.logical fn cs] := by
+  unfold splice
+  split
+  · rename_i cs' heq; injection heq with h1 _; exact absurd h1 h
+  · rfl
+@[simp] theorem splice_isIn (l : Expr) (rs : List Expr) : splice (.isIn l rs) = [.isIn l rs] := rfl
+@[simp] theorem conjuncts1_none : conjuncts1 none = [] := rfl
+@[simp] theorem conjuncts_none : conjuncts none = [] := rfl
+
+theorem flatMap_splice_flat (cs : List Expr) (h : ∀ e ∈ cs, splice e = [e]) : cs.flatMap splice = cs := by
+  induction cs with
+  | nil => rfl
+  | cons c cs ih =>
+    simp only [List.flatMap_cons, h c (by simp), List.singleton_append]
+    rw [ih (fun e he => h e (by simp [he]))]
+
+theorem conjuncts_and_flat (cs : List Expr) (h : ∀ e ∈ cs, splice e = [e]) : conjuncts (some (and_ cs)) = cs := by
+  simp only [conjuncts, and_, conjuncts1]
+  exact flatMap_splice_flat cs h
+
+theorem conjuncts_and (cs : List Expr) : conjuncts (some (and_ cs)) = cs.flatMap splice := by
+  simp only [conjuncts, and_, conjuncts1]
+
+theorem labelCond_no_date (lc : LabelCond) : mentionsDate (labelCondSql labelGetterTS lc) = false := by
+  cases lc with
+  | str l op v => cases op <;> simp [labelCondSql, mentionsDate, eq, neq, labelGetterTS]
+  | num l op v => simp [labelCondSql, mentionsDate, and_]
+  | and a b => simp [labelCondSql, mentionsDate, and_]
+  | or a b => simp [labelCondSql, mentionsDate, or_]
+
+theorem splice_labelCond_noDate (lc : LabelCond) : ∀ e ∈ splice (labelCondSql labelGetterTS lc), mentionsDate e = false := by
+  cases lc with
+  | str l op v =>
+    cases op <;> (intro e he; simp only [labelCondSql, eq, neq] at he; rw [splice_logical _ _ (by decide)] at he;
+                  simp only [List.mem_singleton] at he; subst he; simp [mentionsDate, labelGetterTS])
+  | num l op v =>
+    intro e he
+    simp only [labelCondSql, and_, splice, List.mem_cons, List.mem_singleton, List.not_mem_nil, or_false] at he
+    rcases he with rfl | rfl
+    · simp [mentionsDate]
+    · cases op <;> simp [mentionsDate, eq, neq, gt, ge, lt, le]
+  | and a b =>
+    intro e he
+    simp only [labelCondSql, and_, splice, List.mem_cons, List.mem_singleton, List.not_mem_nil, or_false] at he
+    rcases he with rfl | rfl <;> exact labelCond_no_date _
+  | or a b =>
+    intro e he
+    simp only [labelCondSql, or_] at he
+    rw [splice_logical _ _ (by decide)] at he
+    simp only [List.mem_singleton] at he; subst he; simp [mentionsDate]
+
+theorem splice_getTypes (c : Ctx) : splice (getTypes c) = [getTypes c] := rfl
+theorem splice_lineClause (f : LineFilter) : splice (lineClause f) = [lineClause f] := by
+  unfold lineClause likeClause
+  split <;> (try split) <;> exact splice_logical _ _ (by decide)
+theorem splice_labelCond (lc : LabelCond) : ∀ e ∈ [labelCondSql labelGetterTS lc], e = labelCondSql labelGetterTS lc := by simp
+
+/-- the planner context's tables are classified as the Loki tables they are -/
+structure LokiCfg (cfg : Cfg) (c : Ctx) : Prop where
+  samples : cfg.kind c.samplesTable = .data
+  gin : cfg.kind c.ginTable = .index
+  ts : cfg.kind c.tsTable = .index
+  tsDist : cfg.kind c.tsDistTable = .index
+
+/-- the window a log query asks for: exact bounds, type filter required -/
+def winOf (c : Ctx) : Window := ⟨c.fromNs, c.toNs, 0, true, if c.tp = 0 then 1 else (c.tp : Int)⟩
+
+theorem getTypes_isTypeFilter (c : Ctx) : isTypeFilter (winOf c) (getTypes c) = true := by
+  unfold getTypes isTypeFilter winOf
+  split <;> simp_all
+
+theorem lowerDate_ok (c : Ctx) :
+    (lowerInstants (winOf c)).any (fun t => Time.formatDate t == Time.formatFromDate c.fromNs) = true := by
+  simp [lowerInstants, winOf, secOf, Time.formatFromDate]
+
+theorem streamSelect_confined (cfg : Cfg) (c : Ctx) (h : LokiCfg cfg c) (ok : List Alias) (q_ms : List Matcher) :
+    bodyConfined cfg (winOf c) ok (streamSelect c q_ms) = true ∧ isIndexSelection cfg (streamSelect c q_ms) = true := by
+  constructor
+  · have hc : conjuncts (some (and_ [ge (.raw "date") (.str (Time.formatFromDate c.fromNs)), getTypes c, or_ (q_ms.map matcherClause)])) =
+        [ge (.raw "date") (.str (Time.formatFromDate c.fromNs)), getTypes c, or_ (q_ms.map matcherClause)] :=
+      conjuncts_and_flat _ (by
+        intro e he
+        simp only [List.mem_cons, List.mem_singleton, List.not_mem_nil, or_false] at he
+        rcases he with rfl | rfl | rfl
+        · exact splice_logical _ _ (by decide)
+        · rfl
+        · exact splice_logical _ _ (by decide))
+    simp only [streamSelect, bodyConfined, fromTable, h.gin, conjuncts_none, List.nil_append, hc]
+    have h1 := getTypes_isTypeFilter c
+    have h2 := lowerDate_ok c
+    have h3 : isTypeFilter (winOf c) ((Expr.raw "type").isIn [Expr.int (if c.tp = 0 then 1 else ↑c.tp), Expr.int 0]) = true := h1
+    simp only [Bool.and_eq_true, Bool.or_eq_true]
+    refine ⟨?_, Or.inl ⟨?_, Or.inr ?_⟩⟩
+    · simp [List.all, dateLower, dateUpper, mentionsDate, isDateCol, ge, h2, getTypes, or_]
+    · simp [List.any, dateLower, isDateCol, ge]
+    · simp [List.any, h3, getTypes]
+  · simp [streamSelect, isIndexSelection, fromTable, h.gin]
+
+theorem labelFilter_confined (cfg : Cfg) (c : Ctx) (h : LokiCfg cfg c) (ok : List Alias) (k : Nat) (lc : LabelCond)
+    (hk : Alias.sub k ∈ ok) :
+    bodyConfined cfg (winOf c) ok (labelFilterBody c k lc) = true ∧ isIndexSelection cfg (labelFilterBody c k lc) = true := by
+  constructor
+  · simp only [labelFilterBody, bodyConfined, fromTable, h.ts, conjuncts_none, List.nil_append, conjuncts_and,
+      List.flatMap_cons, List.flatMap_nil, splice_isIn, List.append_nil, List.singleton_append]
+    simp only [Bool.and_eq_true, Bool.or_eq_true]
+    refine ⟨?_, Or.inr ?_⟩
+    · simp only [List.all_cons, Bool.and_eq_true, List.all_eq_true]
+      refine ⟨by simp [mentionsDate], ?_⟩
+      intro e he
+      simp [splice_labelCond_noDate lc e he]
+    · simp [List.any, fpIn, isFpCol, hk]
+  · simp [labelFilterBody, isIndexSelection, fromTable, h.ts]
+
+/-- the fingerprint chain is confined, and leaves `fp_sel` among the confined index selections -/
+theorem fpChain_confined (cfg : Cfg) (c : Ctx) (h : LokiCfg cfg c) (conds : List LabelCond) :
+    ∀ (cur : Sel) (k : Nat) (ok : List Alias) (rest : List (Alias × Sel)),
+      bodyConfined cfg (winOf c) ok cur = true → isIndexSelection cfg cur = true →
+      (∀ ok', Alias.named "fp_sel" ∈ ok' → withsConfined cfg (winOf c) ok' rest = true) →
+      withsConfined cfg (winOf c) ok (fpChain c cur k conds ++ rest) = true := by
+  induction conds with
+  | nil =>
+    intro cur k ok rest hb hi hrest
+    simp only [fpChain, List.cons_append, List.nil_append, withsConfined, hb, hi, if_true, Bool.true_and]
+    exact hrest _ (by simp)
+  | cons lc conds ih =>
+    intro cur k ok rest hb hi hrest
+    simp only [fpChain, List.cons_append, withsConfined, hb, hi, if_true, Bool.true_and]
+    have := labelFilter_confined cfg c h (Alias.sub (k + 1) :: ok) (k + 1) lc (by simp)
+    exact ih _ _ _ rest this.1 this.2 hrest
+
+theorem okAfter_append (cfg : Cfg) (ok : List Alias) (a b : List (Alias × Sel)) :
+    okAfter cfg ok (a ++ b) = okAfter cfg (okAfter cfg ok a) b := by
+  induction a generalizing ok with
+  | nil => rfl
+  | cons x xs ih => simp [okAfter, ih]
+
+end Qryn.Confine
+
+namespace Qryn.Confine
+open Qryn Qryn.Sql Qryn.LogQL
+
+theorem mainSel_confined (cfg : Cfg) (c : Ctx) (h : LokiCfg cfg c) (ok : List Alias) (q : LogQuery) :
+    bodyConfined cfg (winOf c) ok (mainSel c q) = true := by
+  have h3 : isTypeFilter (winOf c) ((Expr.raw "type").isIn [Expr.int (if c.tp = 0 then 1 else ↑c.tp), Expr.int 0]) = true :=
+    getTypes_isTypeFilter c
+  have hpre : conjuncts (some (and_ [ge (.raw "samples.timestamp_ns") (.int c.fromNs), lt (.raw "samples.timestamp_ns") (.int c.toNs), getTypes c])) =
+      [ge (.raw "samples.timestamp_ns") (.int c.fromNs), lt (.raw "samples.timestamp_ns") (.int c.toNs), getTypes c] :=
+    conjuncts_and_flat _ (by
+      intro e he
+      simp only [List.mem_cons, List.mem_singleton, List.not_mem_nil, or_false] at he
+      rcases he with rfl | rfl | rfl
+      · exact splice_logical _ _ (by decide)
+      · exact splice_logical _ _ (by decide)
+      · rfl)
+  simp only [mainSel, bodyConfined, fromTable, h.samples, hpre]
+  simp only [Bool.or_eq_true, Bool.and_eq_true]
+  refine Or.inl ⟨⟨?_, ?_⟩, Or.inr ?_⟩
+  · simp [List.any, isLowerTs, isTsCol, ge, winOf]
+  · simp [List.any, isUpperTs, isTsCol, lt, winOf]
+  · simp [List.any, h3, getTypes]
+
+theorem timeSeriesSel_confined (cfg : Cfg) (c : Ctx) (h : LokiCfg cfg c) (ok : List Alias)
+    (hk : Alias.named "fp_sel" ∈ ok) :
+    bodyConfined cfg (winOf c) ok (timeSeriesSel c) = true := by
+  have hpre : conjuncts (some (and_ [ge (.raw "time_series.date") (.str (Time.formatFromDate c.fromNs)), getTypes c,
+        .isIn (.raw "time_series.fingerprint") [.withRef (.named "fp_sel")]])) =
+      [ge (.raw "time_series.date") (.str (Time.formatFromDate c.fromNs)), getTypes c,
+        .isIn (.raw "time_series.fingerprint") [.withRef (.named "fp_sel")]] :=
+    conjuncts_and_flat _ (by
+      intro e he
+      simp only [List.mem_cons, List.mem_singleton, List.not_mem_nil, or_false] at he
+      rcases he with rfl | rfl | rfl
+      · exact splice_logical _ _ (by decide)
+      · rfl
+      · rfl)
+  simp only [timeSeriesSel, bodyConfined, fromTable, h.tsDist, hpre, conjuncts_none, List.append_nil]
+  simp only [Bool.and_eq_true, Bool.or_eq_true]
+  refine ⟨?_, Or.inr ?_⟩
+  · have h2 := lowerDate_ok c
+    simp [List.all, dateLower, dateUpper, mentionsDate, isDateCol, ge, h2, getTypes]
+  · simp [List.any, fpIn, isFpCol, hk]
+
+theorem planLog_confined (cfg : Cfg) (c : Ctx) (h : LokiCfg cfg c) (q : LogQuery) :
+    confined cfg (winOf c) (planLog c q) = true := by
+  unfold planLog confined
+  simp only [Bool.and_eq_true]
+  constructor
+  · have hs := streamSelect_confined cfg c h [] q.matchers
+    apply fpChain_confined cfg c h (labelConds q) _ 0 [] _ hs.1 hs.2
+    intro ok' hfp
+    simp only [withsConfined, mainSel_confined cfg c h, Bool.true_and, Bool.and_eq_true]
+    refine ⟨?_, ?_, trivial⟩
+    · apply timeSeriesSel_confined cfg c h
+      split <;> simp [hfp]
+    · simp [joinedSel, bodyConfined, fromTable]
+  · simp [bodyConfined, fromTable]
 
 end Qryn.Confine
